@@ -84,11 +84,9 @@ def record(is_eflr, rtype, payload, encrypted=False, new_vr=False):
         pad = 16 - n
     if (n + pad) % 2:
         pad += 1
-    if encrypted:
-        # an encrypted segment keeps its pad bytes: make the payload itself long and even instead
-        seg['payload'] = payload + bytes([0xEE] * pad)
-    else:
-        seg['pad'] = pad
+    if encrypted and not pad:
+        pad = 2           # always exercise 'encrypted + padding attribute': the pad bytes stay part of the (opaque) record body
+    seg['pad'] = pad
     return (is_eflr, rtype, [seg])
 
 
